@@ -33,8 +33,8 @@ func (r *Rng) Intn(n int) int {
 	return int(r.U64() % uint64(n))
 }
 func (r *Rng) Bool(pPercent int) bool { return r.Intn(100) < pPercent }
-func (r *Rng) Fork() *Rng            { return NewRng(r.U64()) }
-func Pick[T any](r *Rng, xs []T) T   { return xs[r.Intn(len(xs))] }
+func (r *Rng) Fork() *Rng             { return NewRng(r.U64()) }
+func Pick[T any](r *Rng, xs []T) T    { return xs[r.Intn(len(xs))] }
 
 const hexd = "0123456789abcdef"
 
@@ -96,7 +96,8 @@ func (t *Transcript) line(prefix string, format string, a ...any) {
 
 // with VERIF_FLUSH=1 every line reaches the file at once (for harnesses whose subject can kill the process)
 var flushEveryLine = os.Getenv("VERIF_FLUSH") == "1"
-func (t *Transcript) Case(n int, note string) { t.line("# case ", "%d %s", n, note) }
+
+func (t *Transcript) Case(n int, note string)      { t.line("# case ", "%d %s", n, note) }
 func (t *Transcript) Op(format string, a ...any)   { t.line("> ", format, a...) }
 func (t *Transcript) Out(format string, a ...any)  { t.line("< ", format, a...) }
 func (t *Transcript) Note(format string, a ...any) { t.line("# ", format, a...) }
